@@ -137,7 +137,20 @@ type event struct {
 	Key  string
 }
 
-func bname(i int) string { return fmt.Sprintf("b%d", i) }
+// blockNames, when set by a universe (names), replaces the default block names b0, b1, ... : names of different
+// lengths where one is a suffix of another, next to keys where one is a prefix of another, make "key+hash"
+// ambiguous ("k"+"12" == "k1"+"2").
+var suffixNames = []string{"2", "12", "112", "1112"}
+
+// useSuffixNames is set around ONE universe run (universes run one after the other; the workers of a run share it).
+var useSuffixNames bool
+
+func bname(i int) string {
+	if useSuffixNames {
+		return suffixNames[i]
+	}
+	return fmt.Sprintf("b%d", i)
+}
 
 func (e event) String() string {
 	switch e.K {
